@@ -12,6 +12,7 @@ import (
 
 func checkC05(c *Ctx) {
 	r := c.R
+	r.Rule("R05.12", "every attribute is printed: the loop of serializeAttrs over the member list has its natural exit only; a break or return from the body drops every member after that point")
 	r.Rule("R05.1", "every attribute keeps its key: in the member loop the branch that skips printing an element's key is controlled only by facts about THIS element (its own group assertion), never by a value carried across loop iterations")
 	r.Rule("R05.2", "string-like values are quoted: in logfmt mode (mode bits pruned, testing/debug dump excluded) no site copies message, value, error text, fallback formatting or the logger name into the record verbatim; only keys (legal-key domain), strconv/time output and user marshaller output are written raw")
 	r.Rule("R05.8", "value fidelity (necessary for 'parses back to its exact value'): as R04.8, in logfmt mode")
@@ -19,6 +20,9 @@ func checkC05(c *Ctx) {
 	r.Rule("R02.6", "(shared with C02) the pooled formatting context is returned to the pool by the normal path only, after the Write, and not used afterwards: a context put back by a deferred call after a panic inside a value's own method carries the half-built state (group prefix, colours) into the records that follow")
 	r.Rule("R05.11", "pair grammar of the fixed members: over every mode-feasible path of the printers of time, logger, level, msg and caller no two pairs follow each other without a separator, no separator follows a separator or an opening brace or precedes a closing one, whatever flags decide which parts are printed")
 	r.Rule("R05.9", "every attribute under its own key: the de-duplication of a member list merges two attributes only when their Key() strings are equal (its equality function returns nothing but a.Key() == b.Key(), identity of the two values, or a constant)")
+	r.Rule("R19.1", "(shared with C19) the record is the bytes the encoder appended: the write side of the formatting buffer is isomorphic to bytes.Buffer")
+	r.Rule("R15.4", "(shared with C15) every attribute under its own key with its own value: handlers derived for log/slog own a fresh copy of the bound field list")
+	r.Rule("R02.3", "(shared with C02) every record is one line of pairs: the only payload that is not the finished buffer is the blank line of Print/Println, taken exactly for lvl == AlwaysLevel with a blank message")
 	r.Rule("R08.1", "(shared with C08) what a record says was logged by this call: nothing on the print path writes memory that outlives the call other than the pooled objects of this call")
 	r.Rule("R08.2", "(shared with C08) attribute lists that are sorted/compacted in place or appended to belong to this call, never to a logger, handler, group or caller")
 	r.Rule("R05.3", "the quoting routine is strconv.Unquote-compatible: in non-JSON mode appendQuotedString produces its output only through appendQuotedWith with the double quote; appendQuotedWith appends nothing but the quote byte, \\xHH of an invalid byte and the result of appendEscapedRune; appendEscapedRune copies a rune verbatim only under an IsPrint/graphic test and otherwise emits only escapes strconv.Unquote accepts")
@@ -43,11 +47,16 @@ func checkC05(c *Ctx) {
 		c05Keys(c, p, m, mr)
 		c05Quoting(c, p, m, mr)
 		valueFidelity(c, p, m, mr, "R05.8")
+		elementsSamePrinter(c, p, m, "R05.8")
+		attrsTraversal(c, p, "R05.12")
 		fixedMemberGrammar(c, p, m, Mode{false, true}, "R05.11")
 		messageIdentity(c, p, "R05.10")
 		messageEmittedAsIs(c, p, m, mr, "R05.10")
 		c02Pool(c, p, m)
 		dedupeEquality(c, p, m, "R05.9")
+		c19WriteSide(c, p)
+		c15Derived(c, p, m)
+		c02Newline(c, p, m)
 		c08Stores(c, p, m)
 		newlineRule(c, p, mr, "R05.4", map[string]string{"PrintCtx.End": "the record terminator of End(true)", "PrintCtx.EndArray": "EndArray(newline) for user marshallers", "Entry.printImpl": "blank-line shortcut"})
 		fieldOrder(c, p, m, mode, "R05.6", []string{"Begin", "printTimestamp", "printLoggerName", "printSeverity", "printMsg", "serializeAttrs", "printPC", "printRestLinesOfMsg", "End", "Bytes", "printOut"}, map[string]bool{"printPC": true, "printRestLinesOfMsg": true})
